@@ -20,13 +20,16 @@ inductive IVar where
   | busyS (w t : String) (maybe : Bool)       -- `<w>_busy_<t>_start` / `<w>_maybe_busy_<t>_start`
   | busyE (w t : String) (maybe : Bool)
   | horizon
-  | fresh (n : Nat)                           -- z3.FreshInt(): `x!N`
+  | fresh (c : Nat) (k : Nat)                 -- k-th z3.FreshInt() of constraint c: `x!N`
+  | ifresh (i : Nat) (k : Nat)                -- k-th z3.FreshInt() of indicator i
+  | bfresh (b : String) (k : Nat)             -- k-th z3.FreshInt() of buffer b (sorting network)
   | grpS (c : Nat) | grpE (c : Nat)           -- task_group_start_<uuid>, task_group_end_<uuid>
-  | overlap (lo hi : Int) (k : Nat)           -- Overlap_<lo>_<hi>_<hex8>
+  | overlap (c : Nat) (lo hi : Int) (k : Nat) -- Overlap_<lo>_<hi>_<hex8>, k-th of constraint c
   | bufInit (b : String)                      -- `<b>_initial_level`
   | bufLevel (b t : String)                   -- `<b>_level_<t>`
   | bufTime (b t : String)                    -- `<b>_sc_time_<t>`
   | ind (name : String)                       -- `Indicator_<name>`
+  | indAuto (cls : String) (i : Nat)          -- `Indicator_<cls>_<uid8>` (auto-named indicator i)
   | named (s : String)                        -- anything else (user / objective helper variables)
   deriving DecidableEq, Repr, Inhabited
 
@@ -35,7 +38,7 @@ inductive BVar where
   | sched (t : String)                        -- `<t>_scheduled`
   | sel (s : Nat) (w : String)                -- `Selected_<w>_<uid of selection s>`
   | applied (c : Nat)                         -- `constraint_<uid>_applied`
-  | inInterval (t : String) (k : Nat)         -- `InTimeIntervalTask_<t>_<uuid>`
+  | inInterval (c : Nat) (t : String) (k : Nat)   -- `InTimeIntervalTask_<t>_<uuid>`, k-th of constraint c
   | named (s : String)
   deriving DecidableEq, Repr, Inhabited
 
@@ -72,7 +75,7 @@ inductive Fml where
   | atLeast (l : List Fml) (k : Nat)          -- PbGe with unit weights
   | pbEq (l : List Fml) (k : Nat)             -- PbEq with unit weights
   | storeFix (arr : String) (i v : Term)      -- `arr = store arr i v`
-  | pulse (f : String) (p : Term) (q : Int)   -- `forall x. ite (x = p) (f x = q) (f x = 0)`
+  | pulse (x : String) (f : String) (p : Term) (q : Int)   -- `forall x. ite (x = p) (f x = q) (f x = 0)`
   | reqSum (lhs rhs : Term)                   -- `(= (to_real lhs) (+ (to_real rhs) 0.0))`
   | tracked (p : Nat) (a : Fml)               -- debug mode: `asst_<hex> => a`
 end
@@ -131,7 +134,7 @@ noncomputable def Fml.eval (ρ : Env) : Fml → Prop
   | .atLeast l k => k ≤ Fml.count ρ l
   | .pbEq l k => Fml.count ρ l = k
   | .storeFix arr i v => ρ.a arr (i.eval ρ) = v.eval ρ
-  | .pulse f p q => ∀ x : Int, (x = p.eval ρ → ρ.f f x = q) ∧ (x ≠ p.eval ρ → ρ.f f x = 0)
+  | .pulse _ f p q => ∀ x : Int, (x = p.eval ρ → ρ.f f x = q) ∧ (x ≠ p.eval ρ → ρ.f f x = 0)
   | .reqSum lhs rhs => lhs.eval ρ = rhs.eval ρ
   | .tracked p a => ρ.p p = true → a.eval ρ
 noncomputable def Fml.evalAll (ρ : Env) : List Fml → Prop
@@ -217,7 +220,7 @@ def Fml.evalB (ρ : Env) : Fml → Bool
   | .atLeast l k => decide (k ≤ Fml.countB ρ l)
   | .pbEq l k => decide (Fml.countB ρ l = k)
   | .storeFix arr i v => decide (ρ.a arr (i.evalB ρ) = v.evalB ρ)
-  | .pulse f p q =>
+  | .pulse _ f p q =>
       let x := p.evalB ρ
       decide (ρ.f f x = q) && decide (ρ.f f (x - 1) = 0) && decide (ρ.f f (x + 1) = 0)
   | .reqSum lhs rhs => decide (lhs.evalB ρ = rhs.evalB ρ)
